@@ -4,16 +4,16 @@ per-system generation / oracle / projection in lib/c16_<system>.py."""
 import json, os, re
 from concurrent.futures import ThreadPoolExecutor
 import vlib
-import c16_dqueue, c16_shcounter, c16_loadbalancer, c16_gcounter, c16_proxy, c16_shopcart
+import c16_dqueue, c16_shcounter, c16_loadbalancer, c16_gcounter, c16_proxy, c16_shopcart, c16_nested
 
 ID = "C16"
 THEOREMS = "Properties/C16.v"
 HARNESS = ["c16"]
 LEVEL = "proof"
 READY = True
-SYSTEMS = [c16_dqueue, c16_shcounter, c16_loadbalancer, c16_gcounter, c16_proxy, c16_shopcart]
+SYSTEMS = [c16_dqueue, c16_shcounter, c16_loadbalancer, c16_gcounter, c16_proxy, c16_shopcart, c16_nested]
 # walks per system: quick, thorough
-BUDGET = {"dqueue": (20, 2500), "shcounter": (10, 800), "loadbalancer": (16, 2000), "gcounter": (14, 1500), "proxy": (16, 1500), "shopcart": (12, 1200)}
+BUDGET = {"dqueue": (20, 2500), "shcounter": (10, 800), "loadbalancer": (16, 2000), "gcounter": (14, 1500), "proxy": (16, 1500), "shopcart": (12, 1200), "nestedcrdtimpl": (14, 1500)}
 
 TRUSTED_BASE = [
     "Coq 8.16.1 kernel (coqc, full .vo build); vm_compute used in the non-vacuity Examples and in the correspondence evaluation",
